@@ -96,10 +96,25 @@ def h_len_after_edit(env):
             edited = True
         elif f.kind == "message" and not f.wraps and f.label == "singular":
             sub = getattr(m, f.name)
+            if not cat.shapes[f.msg].fields:
+                continue
             inner = cat.shapes[f.msg].fields[0]
             if inner.kind in sw.RANGES and inner.label == "singular" and not inner.group:
                 setattr(sub, inner.name, shapes.gen_scalar(env, "edit." + f.name, inner.kind, b, True))
                 edited = True
+            elif inner.kind == "message" and inner.label == "singular" and not inner.wraps and cat.shapes[inner.msg].fields:
+                # two lazily created levels down: m.mid.leaf.x = ...  (nothing on the way was ever assigned)
+                deep = getattr(sub, inner.name)
+                leaf = cat.shapes[inner.msg].fields[0]
+                if leaf.kind in sw.RANGES and not leaf.group:
+                    setattr(deep, leaf.name, shapes.gen_scalar(env, "edit2." + f.name, leaf.kind, b, True))
+                    edited = True
+            for g in cat.shapes[f.msg].fields:
+                # a list inside a lazily created sub-message, appended to in place
+                if g.label == "repeated" and g.kind in sw.RANGES:
+                    getattr(sub, g.name).append(shapes.gen_scalar(env, "edit.l." + f.name, g.kind, b, True))
+                    edited = True
+                    break
     if not edited:
         env.cut("nothing to edit in place")
     data = bytes(m)
